@@ -618,7 +618,9 @@ def run_check(pid, tier='quick', replay=None):
                 first[sig][5] += 1
                 continue
             first[sig] = [cid, payload, m, r, spec_hit, 1]
-        for sig, (cid, payload, m, r, spec_hit, cnt) in first.items():
+        # concrete (property-level / crash) signatures first, internal-only ones last
+        ordered = sorted(first.items(), key=lambda kv: (0 if kv[1][4] else 1))
+        for sig, (cid, payload, m, r, spec_hit, cnt) in ordered:
             if shown >= 5:
                 break
             shown += 1
